@@ -14,6 +14,8 @@ REPO = os.environ.get("FEOS_REPO", "/repo")
 CACHE = os.path.join(VERIF, ".cache")
 DRIVER_DIR = os.path.join(VERIF, "engines", "feoslint")
 DRIVER = os.path.join(DRIVER_DIR, "target", "release", "feoslint")
+SYN_DIR = os.path.join(VERIF, "engines", "feossyn")
+SYN = os.path.join(SYN_DIR, "target", "release", "feossyn")
 
 # cfg configurations: name -> cargo feature list for the feos package
 CONFIGS = {
@@ -63,6 +65,8 @@ def tree_hash(repo=None):
     for f in ("src/main.rs", "Cargo.toml"):
         with open(os.path.join(DRIVER_DIR, f), "rb") as fh:
             h.update(hashlib.sha256(fh.read()).digest())
+    with open(os.path.join(SYN_DIR, "src/main.rs"), "rb") as fh:
+        h.update(hashlib.sha256(fh.read()).digest())
     return h.hexdigest()[:20], n
 
 
@@ -77,6 +81,11 @@ def build_driver():
     if r.returncode != 0 or not os.path.exists(DRIVER):
         sys.stderr.write(r.stdout)
         raise SystemExit("feoslint driver failed to build")
+    r = subprocess.run(["cargo", "build", "--release", "--offline"], cwd=SYN_DIR, env=env,
+                       stdout=subprocess.PIPE, stderr=subprocess.STDOUT, text=True)
+    if r.returncode != 0 or not os.path.exists(SYN):
+        sys.stderr.write(r.stdout)
+        raise SystemExit("feossyn failed to build")
 
 
 class ExtractionError(Exception):
@@ -115,6 +124,13 @@ def extract(config="full", repo=None, facts_dir=None, log=None):
         if not os.path.exists(os.path.join(facts_dir, f)):
             shutil.rmtree(facts_dir, ignore_errors=True)
             raise ExtractionError("driver wrote no %s for config %s (wrapper skipped?)\n%s" % (f, config, r.stdout[-3000:]))
+    # E2: source-shape facts (serde / derive attributes)
+    rs = subprocess.run([SYN, repo, "src", "feos-core/src", "feos-dft/src"], stdout=subprocess.PIPE, stderr=subprocess.PIPE, text=True)
+    if rs.returncode != 0 or not rs.stdout.strip():
+        shutil.rmtree(facts_dir, ignore_errors=True)
+        raise ExtractionError("feossyn failed: %s" % rs.stderr[-2000:])
+    with open(os.path.join(facts_dir, "syn.json"), "w") as fh:
+        fh.write(rs.stdout)
     with open(os.path.join(facts_dir, "meta.json"), "w") as fh:
         json.dump({"config": config, "features": feats, "wall_s": time.time() - t0, "cmd": cmd}, fh)
     return time.time() - t0
@@ -287,6 +303,14 @@ class Facts:
                 if "cpath" in bd:
                     self.by_cpath[bd["cpath"]] = b
         self.meta = json.load(open(os.path.join(d, "meta.json")))
+        self._syn = None
+        self.repo = REPO
+
+    @property
+    def syn(self):
+        if self._syn is None:
+            self._syn = json.load(open(os.path.join(self.dir, "syn.json")))
+        return self._syn
 
     def body(self, path):
         bs = self.by_path.get(path, [])
